@@ -177,6 +177,20 @@ func (server *SugarDB) handleCommand(ctx context.Context, message []byte, conn *
 			return nil, err
 		}
 
+		if internal.IsWriteCommand(command, subCommand) {
+			// Values that were modified in place do not pass through setValues: bring the memory
+			// accounted for the keys this command writes in line with what is stored now.
+			extractKeys := command.KeyExtractionFunc
+			if ok {
+				extractKeys = subCommand.KeyExtractionFunc
+			}
+			if extractKeys != nil {
+				if keys, err := extractKeys(cmd); err == nil {
+					server.reconcileKeysMemory(ctx, keys.WriteKeys)
+				}
+			}
+		}
+
 		if internal.IsWriteCommand(command, subCommand) && !replay {
 			server.connInfo.mut.RLock()
 			server.aofEngine.LogCommand(server.connInfo.tcpClients[conn].Database, message)
